@@ -122,13 +122,13 @@ CHECKS = {
  "C03": dict(
    text="Lean theorems (record level + codec law): every byte-granular cut of the calls of a put/delete leaves a directory whose startup scan yields the old or the new map and never fails; merge cuts under "
         "NoHazard. Tied to the real store: each workload runs once under the recorder (trace must equal the model's), then crash images at every call boundary and inside appends are opened by the real "
-        "code and by the model: must open, every key reads as acknowledged (+/- the op in flight); sampled images are restored in place and the workload continues through writes, restart, merge, restart.",
+        "code and by the model: must open, every key reads as acknowledged (+/- the op in flight); sampled images are restored in place and the workload continues through writes, restart, merge, restart. Lives (Props/C03Lives.lean): the same for ANY number of lives, each possibly ended by a kill at any cut of any operation, merges included: the recovery invariant is weakened to `HintsPrefix` (the hint entries the scan accepts describe a prefix of the data file's records) and re-established by every recovery; a decide-checked counterexample shows the D3 side condition must count the records the scan does not see.",
    note=COMMON_NOTE + "The property's own failure model (a killed process leaves a prefix of its system calls; POSIX append) is trusted. KNOWN FINDING D3 applies to workloads whose merge drops a shadowing tombstone.",
    technique="Lean 4 proof (cut lemmas per operation over the recovery invariant) + crash-image enumeration against real code and model",
    ref="DESIGN.md §5 C03"),
  "C09": dict(
    text="Lean theorems: with sync=always every acknowledged record lies below the fsynced length of its file; merge outputs are fsynced before the first unlink, hint entries beyond the data file are ignored. "
-        "Tied to the real store: trace equality incl. every fsync, and power-loss images (each file independently cut back to its synced length / kept / in between) opened by real code and model.",
+        "Tied to the real store: trace equality incl. every fsync, and power-loss images (each file independently cut back to its synced length / kept / in between) opened by real code and model. Lives (Props/C09Lives.lean): any number of lives ended by kills or power failures at any cut (sync=always), merges included; a decide-checked counterexample shows why the image model must keep the length of a file that loses no record.",
    note=COMMON_NOTE + "The property's failure model (what fsync guarantees; creations/removals durable) is trusted. KNOWN FINDING D3 applies.",
    technique="Lean 4 proof (durability invariant over traces) + power-loss image enumeration against real code and model",
    ref="DESIGN.md §5 C09"),
